@@ -1,0 +1,22 @@
+//go:build verif
+
+// Contracts read by the verification tooling in /verif (build tag "verif"; comment-only).
+package pts
+
+// C14: a PTS file that ends before the declared number of points is rejected.
+//
+// The declared count is the first line; every following line is one point.  "exit" clauses are
+// postconditions over the function's own locals at every return (checked, never assumed by callers).
+
+//@ func ReadPointCloud
+//@   props C14
+//@   returns mesh, err
+//@   unclaimed safe.makelen: a negative declared count panics in make(); no prefix of a valid file declares one, so it is outside C14
+//@   exit all_declared_points_read: err == nil ==> curLine == parsedCount
+//@   loop 1:
+//@     invariant 0 <= curLine && curLine <= parsedCount
+//@     invariant len(readVerts) == parsedCount && len(readColors) == parsedCount && len(intensity) == parsedCount
+//@     invariant fresh(readVerts) && fresh(readColors) && fresh(intensity)
+
+//@ func ParseVec3 frameonly
+//@   props C14
